@@ -29,7 +29,7 @@ def main():
     a = sys.argv[1:]
     pid = a[0]
     src = "/var/tmp/seed/out/" + pid
-    also, tier, tags, race, name = [], "quick", "", False, None
+    also, tier, tags, race, name, noe2e = [], "quick", "", False, None, False
     i = 1
     while i < len(a):
         if a[i] == "--src": src = a[i + 1]
@@ -38,6 +38,7 @@ def main():
         elif a[i] == "--tags": tags = a[i + 1]
         elif a[i] == "--race": race = a[i + 1] == "1"
         elif a[i] == "--name": name = a[i + 1]
+        elif a[i] == "--noe2e": noe2e = True; i -= 1
         i += 2
     global DEST
     wt = "/var/tmp/seedeval-" + (name or pid)
@@ -54,7 +55,7 @@ def main():
         files = [f for f in out.split() if f.endswith(".go")]
         if any(f.endswith("_test.go") for f in files):
             print("patch touches test files:", files)
-        pkgs = sorted({"./" + os.path.dirname(f) if os.path.dirname(f) else "." for f in files})
+        pkgs = sorted({"./" + os.path.dirname(f) if os.path.dirname(f) else "." for f in files} | {"."})
         meta["files"] = files
         rc, out = sh("go1.26.8 build ./...", wt)
         meta["ran"].append({"cmd": "go build ./...", "rc": rc})
@@ -66,7 +67,7 @@ def main():
         print("existing tests of touched packages:", "PASS" if rc == 0 else "FAIL")
         if rc != 0:
             print(out[-3000:]); meta["verdict"] = "existing tests fail with the change"; return finish(pid, src, meta, False)
-        if "." in pkgs or "./handshake" in pkgs:
+        if not noe2e and (any(os.path.dirname(f) == "" for f in files) or "./handshake" in pkgs):
             rc, out = sh("go1.26.8 test -count=1 -vet=off -tags e2e_testing ./e2e", wt, timeout=1800)
             meta["ran"].append({"cmd": "go test -tags e2e_testing ./e2e", "rc": rc})
             print("upstream e2e suite (not part of the baseline) with the change:", "PASS" if rc == 0 else "FAIL")
